@@ -83,6 +83,142 @@ def race_run(seed, log):
     return '', g.stdout.count('\n')
 
 
+def path_profiles(seed, tier, log):
+    """C09, dynamic side: the library is built with Go's block counters (-cover -covermode=count) and each validation
+    entry point is run, one process per call, on wrong codes of the right length that agree with the expected code in
+    their first k characters, k = 0 .. length-1.  The vector of block execution counts of the library must be the same
+    for every k: a rejection that takes another path (fewer loop iterations, an early return) for a longer correct
+    prefix shows up as a block whose count varies with k.  Returns (violations, stats)."""
+    import shutil, tempfile
+    env = dict(os.environ, GOWORK='off', GOFLAGS='-mod=mod', GOPROXY='off')
+    env.pop('GOSUMDB', None)
+    hdir = os.path.join(ROOT, 'harness')
+    binp = os.path.join(WORK, 'harness_cover')
+    base = ['go', 'build', '-cover', '-covermode=count', '-coverpkg=github.com/ja7ad/otp/...,./...']
+    p = subprocess.run(base + ['-tags', 'verif', '-o', binp, '.'], cwd=hdir, env=env, stdout=subprocess.PIPE, stderr=subprocess.STDOUT, text=True, timeout=1800)
+    if p.returncode:
+        p = subprocess.run(base + ['-o', binp, '.'], cwd=hdir, env=env, stdout=subprocess.PIPE, stderr=subprocess.STDOUT, text=True, timeout=1800)
+    if p.returncode:
+        log.write('--- cover build failed\n' + p.stdout[-2000:])
+        return None, {}
+    harness = os.path.join(ROOT, 'bin', 'harness')
+    def impl(lines):
+        r = subprocess.run([harness, 'exec'], input='\n'.join(lines) + '\n', stdout=subprocess.PIPE, text=True, timeout=600)
+        return r.stdout.split('\n')[:-1]
+    # scenarios: generation cases of the ordinary streams that succeed, one per (operation, code length)
+    gens = []
+    for stream, n in (('c01', 300), ('c02', 300), ('c05', 300)):
+        g = subprocess.run([harness, 'gen', stream, str(seed), str(n)], stdout=subprocess.PIPE, text=True, timeout=600)
+        gens += [l for l in g.stdout.split('\n') if l.split(' ')[0] in ('ghotp', 'gtotp', 'gocra')]
+    outs = impl(gens)
+    scen, seen = [], {}
+    for c, o in zip(gens, outs):
+        if not o.startswith('ok:'):
+            continue
+        code = bytes.fromhex(o[3:]).decode('latin1')
+        f = c.split(' ')
+        key = (f[0], len(code))
+        if seen.get(key, 0) >= (2 if tier == 'quick' else 6) or not code.isdigit():
+            continue
+        seen[key] = seen.get(key, 0) + 1
+        if f[0] == 'ghotp':
+            tmpl = 'vhotp %s %%s %s %s' % (f[1], f[2], f[3])
+        elif f[0] == 'gtotp':
+            tmpl = 'vtotp %s %%s %s %s' % (f[1], f[2], f[3])
+        else:
+            tmpl = 'vocra %s %%s %s %s' % (f[1], f[2], f[3])
+        scen.append((tmpl, code))
+    tmp = tempfile.mkdtemp(prefix='c09prof', dir=WORK)
+    viol, runs = [], 0
+    def profile(case):
+        d = tempfile.mkdtemp(dir=tmp)
+        r = subprocess.run([binp, 'exec'], input=case + '\n', env=dict(os.environ, GOCOVERDIR=d), stdout=subprocess.PIPE, text=True, timeout=120)
+        txt = os.path.join(d, 'p.txt')
+        subprocess.run(['go', 'tool', 'covdata', 'textfmt', '-i=' + d, '-o=' + txt], env=env, stdout=subprocess.PIPE, stderr=subprocess.STDOUT, timeout=120)
+        prof = {}
+        if os.path.exists(txt):
+            for line in open(txt):
+                if line.startswith('github.com/ja7ad/otp/'):
+                    loc, _, cnt = line.rsplit(' ', 2)
+                    prof[loc] = prof.get(loc, 0) + int(cnt)
+        shutil.rmtree(d, ignore_errors=True)
+        return r.stdout.strip(), prof
+    try:
+        for tmpl, code in scen:
+            hexs = lambda t: 'x' + t.encode('latin1').hex()
+            ref = None
+            for variant in ('one', 'rest'):
+                for k in range(len(code)):
+                    wrong = str((int(code[k]) + 1) % 10)
+                    if variant == 'one':
+                        sub = code[:k] + wrong + code[k + 1:]
+                    else:
+                        sub = code[:k] + ''.join(str((int(ch) + 1) % 10) for ch in code[k:])
+                    case = tmpl % hexs(sub)
+                    out, prof = profile(case)
+                    runs += 1
+                    if not prof:
+                        continue
+                    if out.startswith('v:true'):
+                        continue   # (a neighbour's code in the window happens to be this string)
+                    if ref is None:
+                        ref = (case, prof)
+                        continue
+                    if prof != ref[1]:
+                        diff = sorted(l for l in set(prof) | set(ref[1]) if prof.get(l, 0) != ref[1].get(l, 0))
+                        viol.append({'case': case, 'impl': 'block counts differ from those of %s at %s' % (ref[0], ', '.join('%s (%d vs %d)' % (l, prof.get(l, 0), ref[1].get(l, 0)) for l in diff[:4])),
+                                     'model': 'the same blocks run the same number of times whatever prefix of the code is right', 'spec': '-',
+                                     'kind': 'rejection path depends on the length of the correct prefix (block execution counts)', 'pair': [ref[0], case]})
+                        break
+                if viol and viol[-1].get('pair', [None])[0] == (ref or [None])[0]:
+                    break
+            # sanity of the instrument: the accepting run must differ from the rejecting ones
+            if ref is not None:
+                out, prof = profile(tmpl % hexs(code))
+                runs += 1
+                if out.startswith('v:true') and prof == ref[1]:
+                    viol.append({'case': tmpl % hexs(code), 'kind': 'the block counters do not distinguish acceptance from rejection (instrument broken)', 'no_input': True})
+    finally:
+        shutil.rmtree(tmp, ignore_errors=True)
+    return viol, {'path_profile_scenarios': len(scen), 'path_profile_runs': runs}
+
+
+def replay_pair(pair, log):
+    """re-run the two cases of a path-profile violation and compare their block counts"""
+    import shutil, tempfile
+    env = dict(os.environ, GOWORK='off', GOFLAGS='-mod=mod', GOPROXY='off')
+    env.pop('GOSUMDB', None)
+    binp = os.path.join(WORK, 'harness_cover')
+    base = ['go', 'build', '-cover', '-covermode=count', '-coverpkg=github.com/ja7ad/otp/...,./...']
+    hdir = os.path.join(ROOT, 'harness')
+    p = subprocess.run(base + ['-tags', 'verif', '-o', binp, '.'], cwd=hdir, env=env, stdout=subprocess.PIPE, stderr=subprocess.STDOUT, text=True, timeout=1800)
+    if p.returncode:
+        p = subprocess.run(base + ['-o', binp, '.'], cwd=hdir, env=env, stdout=subprocess.PIPE, stderr=subprocess.STDOUT, text=True, timeout=1800)
+    if p.returncode:
+        print('the harness could not be built with block counters')
+        return 1
+    profs = []
+    for case in pair:
+        d = tempfile.mkdtemp(prefix='c09replay', dir=WORK)
+        subprocess.run([binp, 'exec'], input=case + '\n', env=dict(os.environ, GOCOVERDIR=d), stdout=subprocess.PIPE, text=True, timeout=120)
+        txt = os.path.join(d, 'p.txt')
+        subprocess.run(['go', 'tool', 'covdata', 'textfmt', '-i=' + d, '-o=' + txt], env=env, stdout=subprocess.PIPE, stderr=subprocess.STDOUT, timeout=120)
+        prof = {}
+        if os.path.exists(txt):
+            for line in open(txt):
+                if line.startswith('github.com/ja7ad/otp/'):
+                    loc, _, cnt = line.rsplit(' ', 2)
+                    prof[loc] = prof.get(loc, 0) + int(cnt)
+        shutil.rmtree(d, ignore_errors=True)
+        profs.append(prof)
+    diff = sorted(l for l in set(profs[0]) | set(profs[1]) if profs[0].get(l, 0) != profs[1].get(l, 0))
+    for c in pair:
+        print('case :', c)
+    for l in diff[:10]:
+        print('  %s runs %d times for the first, %d times for the second' % (l, profs[0].get(l, 0), profs[1].get(l, 0)))
+    return 1 if diff else 0
+
+
 def extra_engines(pid, tier, seed, log, build_state):
     if pid in ('C11', 'C12'):
         nat, wasm, sizes = mem_sites(log)
@@ -128,4 +264,13 @@ def extra_engines(pid, tier, seed, log, build_state):
         out['rule'] = ' | C09: every comparison and every call leaving the analysed packages in both SSA fact bases is examined (exhaustive over the program text); non-trivial = HMAC-derived values reached'
         out['samples'] = [{'native_edges': sizes[0], 'native_comparisons': sizes[1], 'wasm_edges': sizes[2], 'wasm_comparisons': sizes[3]}]
     out['exhaustive'] = True
+    if build_state.get('harness_ok'):
+        pv, pstats = path_profiles(seed, tier, log)
+        if pv is None:
+            out['coverage']['path_profile'] = 'the harness could not be built with block counters'
+        else:
+            out['violations'] += pv
+            out['coverage'].update(pstats)
+            out['evaluations'] = out.get('evaluations', 0) + pstats.get('path_profile_runs', 0)
+            out['rule'] = out.get('rule', '') + ' | dynamic: block execution counts of the library (go build -cover, count mode) for wrong codes agreeing with the expected code in their first k characters must not depend on k'
     return out
